@@ -30,14 +30,14 @@ type fuzzSpec struct {
 }
 
 type propSpec struct {
-	Pkg           string
-	Level         string
-	QuickShards   int
-	ThoroughShards int
-	Race          bool
-	Fuzz          []fuzzSpec // thorough only
+	Pkg             string
+	Level           string
+	QuickShards     int
+	ThoroughShards  int
+	Race            bool
+	Fuzz            []fuzzSpec // thorough only
 	HangIsViolation bool
-	QuickTimeout  time.Duration
+	QuickTimeout    time.Duration
 	ThoroughTimeout time.Duration
 }
 
